@@ -38,7 +38,7 @@ func init() {
 			"record lines compared as a set keyed by tree id. Library level: 2..R calls in one process of the randomised / map-consuming functions after re-seeding. " +
 			"non-trivial = the command exits with status 0 and produces output; distinct by (template, input family)",
 		Assumptions: []string{
-			"--seed is always given (any value other than -1, which is documented as the clock: 0, negative and 64-bit values included); log files that carry dates are not requested; commands that need the network or a terminal are out of reach offline",
+			"--seed is always given (any value other than -1, which is documented as the clock: 0, negative and 64-bit values included); the Date / Start / End lines of the support logs (time of the run, minute resolution) are masked before comparing; commands that need the network or a terminal are out of reach offline",
 		},
 		MinNontrivialFrac: 0.25,
 		Run:               runC18,
